@@ -562,14 +562,28 @@ impl<'me> ClaimGuard<'me> {
             verif::line("release_self", self.database_key_index(), "to_transferred");
 
             // Threads that started waiting on this query while it was re-claimed recorded a
-            // dependency on *this* thread. The query now belongs to its transfer target again, so
-            // that edge is stale: cycle checks no longer see whom those threads really wait for
-            // (which can deadlock two threads that wait for each other through transferred
-            // queries). Wake them; they retry the claim, find the query transferred and resolve
-            // (or detect a cycle through) its current owner.
-            if std::mem::take(&mut state.get_mut().anyone_waiting) {
-                self.zalsa
-                    .runtime()
+            // dependency on *this* thread. The query now belongs to its transfer target again. If
+            // that target is owned by another thread (we could re-claim the query because that
+            // thread is blocked on us), the edge is stale: cycle checks no longer see whom those
+            // threads really wait for (which can deadlock two threads that wait for each other
+            // through transferred queries). Wake them; they retry the claim, find the query
+            // transferred and resolve (or detect a cycle through) its current owner.
+            //
+            // If this thread owns the transfer target, the edges are accurate and the waiters
+            // must stay blocked: a woken thread is momentarily not part of the wait-for graph, so
+            // a cycle head completing on this thread in the meantime doesn't see the outer cycle
+            // head that thread holds (`outer_cycle`), iterates on its own and publishes memos
+            // from a new iteration while the woken thread's active query still holds heads from
+            // the previous one ("Can't merge cycle heads ... with different iterations").
+            let runtime = self.zalsa.runtime();
+            if state.get().anyone_waiting
+                && !runtime.is_owner_of_transferred_query(
+                    self.database_key_index(),
+                    thread::current().id(),
+                )
+            {
+                state.get_mut().anyone_waiting = false;
+                runtime
                     .unblock_queries_blocked_on(self.database_key_index(), WaitResult::Completed);
             }
         } else {
